@@ -43,7 +43,9 @@ CROSS_FAMILIES = {
     "cross/ramp-split": dict(dev="cross", currents=SPLIT, current_ramp=0.2, field=0.3, adaptive=True, dt=2e-3, dt_max=4e-3,
                              solve_time=0.05, k=4),
 }
-CROSS_THREADS_QUICK = [2, 5, 8, 16]
+CROSS_THREADS_QUICK = [2, 8, 16]
+# quick tier: all six thread counts for the family that runs the parallel kernel inside the solver, three for the others
+BASE_THREADS_QUICK = {"adaptive/hole": [2, 5, 16], "time-dependent/ramp": [1, 3, 8]}
 # a drive for which the random validation times WOULD matter if they leaked into the run: the current equals its t = 0 value
 # except on a window of 0.7 % of the run (it contains exactly one step time); the scripted draws of one child hit the window,
 # those of another miss it, the others draw naturally
@@ -55,8 +57,16 @@ SPECIAL_FAMILIES = {
     # inputs (seed arrays, device/mesh arrays, a user array handed to a Parameter) must not be mutated
     "seed-reused/screening": dict(dev="bar", seed_reuse=dict(relax=6, cont=5), current=2.0, adaptive=False, dt=DT, solve_time=5 * DT - DT / 2,
                                   screening=True, k=2),
+    # progress logging switched on (a log line every 1 / 3 steps) together with a ramped field: the dA/dt term of the potential
+    # equation uses the step size handed to update(), which must be the solver's and nothing the logging computes
+    "progress-log/ramped field, fixed dt": dict(dev="bar", current=2.0, field=0.6, field_ramp=0.5, adaptive=False, dt=DT, solve_time=14 * DT - DT / 2,
+                                                k=3, progress=1),
+    "progress-log/ramped field, adaptive": dict(dev="barhole", current=3.0, field=0.8, field_ramp=0.4, adaptive=True, dt=DT, dt_max=0.05, solve_time=0.35,
+                                                k=4, progress=3),
 }
 SPECIAL_THREADS_QUICK = [1, 3, 8, 16]
+PROGRESS_THREADS_QUICK = [1, 16]
+SPECIAL3_THREADS_QUICK = [1, 5, 16]
 # (max_edge_length 0.5: the refinement loop of the mesh generator runs several rounds and ends at different triangle areas for
 # the strip with and without hole — with coarser targets it ends in its first round for both)
 # 'what the process did before': the same simulation X alone, and after DIFFERENT work in the same process
@@ -75,6 +85,12 @@ HISTORY_FAMILIES = {
         variants=[[], [dict(kind="sim", on="device", over=_PSIN)],
                   [dict(kind="mesh", dev="barhole"), dict(kind="mesh", dev="cross")],
                   [dict(kind="sim", on="copy", over=_PSIN, then="solution.device")]]),
+    # a terminal polygon edited IN PLACE (points assigned, scale(inplace=True)) without re-meshing: the process that has already
+    # solved on the device before the edit must give what a process gives that edits first and solves once
+    "history/terminal edited in place": dict(
+        dev="bar", current=3.0, field=0.3, adaptive=False, dt=DT, solve_time=8 * DT - DT / 2, k=2, terminal_edit=True,
+        variants=[[], [dict(kind="sim", on="device", over=dict(solve_time=3 * DT - DT / 2))],
+                  [dict(kind="sim", on="device", over=dict(solve_time=2 * DT - DT / 2, screening=True, current=1.0))]]),
 }
 THOROUGH_FAMILIES = {
     "screening/adaptive/ramp": dict(dev="barhole", current=3.0, current_ramp=0.1, field=0.6, field_ramp=0.2, adaptive=True, dt=DT, dt_max=0.03,
@@ -251,6 +267,18 @@ def child(args):
             if st.get("then") == "solution.device":
                 dev_for_x = earlier.device
     dev = dev_for_x
+    if a.get("terminal_edit"):
+        from tdgl.geometry import box
+        src = next(t for t in dev.terminals if t.name == "source")
+        drn = next(t for t in dev.terminals if t.name == "drain")
+        # (vacuity guard on a COPY: the device under test itself is not asked for its terminals before the edit)
+        before = [len(t.site_indices) for t in dev.copy().terminal_info()]
+        src.points = box(0.1, 1.6, center=(-2.5, 0.5))                 # the source now covers part of its side only
+        drn.scale(yfact=0.5, origin=(2.5, -0.3), inplace=True)
+        after = sorted((t.name, len(t.site_indices)) for t in dev.terminal_info())
+        obs["terminal sites after the edit"] = hashlib.sha256(json.dumps(after).encode()).hexdigest()[:16]
+        if not prework and sorted(before) == sorted(n for _, n in after):
+            raise RuntimeError("the terminal edit does not change the terminal sites: vacuous")
     kw = twin.drive(tdgl, a)
     if a.get("pulse"):
         kw["terminal_currents"] = _pulse(a["pulse"])
@@ -323,12 +351,13 @@ def _run(ctx):
             sks.append(kernelsk.extract(core.REPO, spec, n_outer=3 if ctx.quick else 4))
         except (kernelsk.SkeletonError, SyntaxError, OSError) as e:
             deferred.append(f"kernel {spec['func']}: skeleton not understood by the extractor: {e}")
+    started = _start_children(ctx)
     try:
         orders = _model_part(ctx, sks, deferred) if sks else {}
     except core.MachineryFailure as e:
         deferred.append(str(e)[:600])
         orders = {}
-    _dynamic_part(ctx, orders, deferred)
+    _dynamic_part(ctx, orders, deferred, started)
     if deferred and not ctx.violations:
         raise core.MachineryFailure("C09: " + " | ".join(deferred))
     if deferred:
@@ -420,10 +449,8 @@ def _draw_seeds(ph, num_evals=100):
     raise RuntimeError("no hit/miss seeds found")
 
 
-def _dynamic_part(ctx, orders, deferred):
-    from harness import core, kernelsk, twin
-
-    # ---------------------------------------------------------------- 2. real executions in fresh processes
+def _start_children(ctx):
+    """Plans the fresh-process runs and starts them (they do not depend on the model part, which runs meanwhile)."""
     fams = dict(FAMILIES)
     fams.update(CROSS_FAMILIES)
     fams.update(SPECIAL_FAMILIES)
@@ -432,14 +459,11 @@ def _dynamic_part(ctx, orders, deferred):
     if not ctx.quick:
         fams.update(THOROUGH_FAMILIES)
     jobs = []
-    sched = {k: sorted(v)[: (6 if ctx.quick else 24)] for k, v in orders.items()}
-    for spec in kernelsk.KERNELS:        # no schedule from TLC for a kernel (its model run was refuted or failed): fixed claim orders
-        sched.setdefault(spec["func"], DEFAULT_ORDERS)
-    ctx.cov["kernels_replayed_with_default_orders"] = sorted(k for k in sched if k not in orders)
-    jobs.append(("kernels", dict(mode="kernels", work=str(ctx.tmp / "kern"), threads=THREADS, orders={k: [list(o) for o in v] for k, v in sched.items()}), 16, 11))
     n = 0
     for fi, (label, ph) in enumerate(fams.items()):
-        few = CROSS_THREADS_QUICK if label in CROSS_FAMILIES else SPECIAL_THREADS_QUICK if (label in SPECIAL_FAMILIES or label in HISTORY_FAMILIES) else None
+        few = (CROSS_THREADS_QUICK if label in CROSS_FAMILIES else PROGRESS_THREADS_QUICK if label.startswith("progress-log/")
+               else SPECIAL_THREADS_QUICK if label in HISTORY_FAMILIES else SPECIAL3_THREADS_QUICK if label in SPECIAL_FAMILIES
+               else BASE_THREADS_QUICK.get(label))
         for ti, T in enumerate(few if (ctx.quick and few) else THREADS):
             locs = [ti % 2] if ctx.quick else [0, 1]
             for loc in locs:
@@ -449,12 +473,32 @@ def _dynamic_part(ctx, orders, deferred):
                          rng_seed=(None if n % 3 == 0 else 77 + n))
                 if label in HISTORY_FAMILIES:
                     vs = HISTORY_FAMILIES[label]["variants"]
+                    if ctx.quick and ti >= len(vs):
+                        continue                      # quick: one child per variant
                     a["prework"] = vs[(ti if ctx.quick else 2 * ti + loc) % len(vs)]
                 if ph.get("pulse"):       # first child: draws that hit the pulse; second: draws that miss it; then natural / other seeds
                     a["rng_seed"] = hit if ti == 0 and loc == locs[0] else miss if ti == 1 and loc == locs[0] else (None if ti % 2 == 0 else 77 + n)
                 jobs.append((label, a, T, 100 + 7 * n))
-    with ThreadPoolExecutor(max_workers=8) as ex:
-        results = list(ex.map(lambda j: _spawn(j[1], j[2], j[3], timeout=(60 if ctx.violations else 300) if ctx.quick else 600), jobs))
+    ex = ThreadPoolExecutor(max_workers=8)
+    tmo = 300 if ctx.quick else 600
+    futures = [ex.submit(_spawn, j[1], j[2], j[3], tmo) for j in jobs]
+    return dict(ex=ex, fams=fams, jobs=jobs, futures=futures, timeout=tmo)
+
+
+def _dynamic_part(ctx, orders, deferred, started):
+    from harness import core, kernelsk, twin
+
+    # ---------------------------------------------------------------- 2. real executions in fresh processes
+    fams, ex = started["fams"], started["ex"]
+    sched = {k: sorted(v)[: (6 if ctx.quick else 24)] for k, v in orders.items()}
+    for spec in kernelsk.KERNELS:        # no schedule from TLC for a kernel (its model run was refuted or failed): fixed claim orders
+        sched.setdefault(spec["func"], DEFAULT_ORDERS)
+    ctx.cov["kernels_replayed_with_default_orders"] = sorted(k for k in sched if k not in orders)
+    kjob = ("kernels", dict(mode="kernels", work=str(ctx.tmp / "kern"), threads=THREADS, orders={k: [list(o) for o in v] for k, v in sched.items()}), 16, 11)
+    kfut = ex.submit(_spawn, kjob[1], kjob[2], kjob[3], 120 if (ctx.violations and ctx.quick) else started["timeout"])
+    jobs = [kjob] + started["jobs"]
+    results = [kfut.result()] + [f.result() for f in started["futures"]]
+    ex.shutdown()
     for j, res in zip(jobs, results):
         if "error" in res:        # deferred: the other processes are still compared
             deferred.append(f"child process for {j[0]} (threads={j[2]}) failed: {res['error'][-400:]}")
